@@ -1,6 +1,6 @@
 #!/bin/bash
 # seeds sweep on the clean tree: every property, both tiers, seeds 2 and 3 (seed 1 is the default everywhere)
-cd "$(dirname "$0")" 2>/dev/null || true
+cd "$(dirname "$0")/.." || exit 2
 python3 tools/setup.py > /dev/null 2>&1
 for seed in 2 3; do for p in C01 C02 C03 C04 C05 C06 C07 C08 C09 C10 C11 C12 C13 C14 C15 C16 C18 C19 C20; do
   for tier in quick thorough; do
